@@ -208,6 +208,11 @@ def _orders(ctx):
         for st in strays:
             for body in ([good, st], [st, good], [good, st, st], [pool[0], good, st, pool[2]], [good, st, pool[1], st]):
                 check_e2e(ctx, body, "stray line among classified lines")
+    # identical lines repeated (each occurrence is its own event)
+    for a_ in pool[:3]:
+        for b_ in pool[:3]:
+            check_e2e(ctx, [a_, a_], "identical lines")
+            check_e2e(ctx, [a_, b_, a_, b_, b_], "identical lines")
     # a long [Events] section: 1500 lines cycling through the kinds (thresholds on the number of lines / events)
     longbody = [('%d = E "lyric w%d"', '%d = E "section s %d"', '%d = E "free %d"', '%d = E "lyric \"q%d\""')[i % 4] % (2 * i, i) for i in range(1500)]
     check_e2e(ctx, longbody, "1500 lines", sync=("0 = TS 4", "0 = B 120000") + tuple("%d = B %d" % (100 * k, 60000 + k) for k in range(1, 25)))
